@@ -53,6 +53,9 @@ def check(repo, col, tier):
     # forward Euler on a network of unbranched cells: every cell's edges must stay in that cell's row
     col.rule("R-C12-explicit", "forward Euler vector field: one row per branch, neighbours within the branch", 4)
     c01_solver._vectorfield(repo, col, "R-C12-explicit")
+    # uncoupled cells with different compartment counts must be REFUSED by the explicit scheme, not reshaped together
+    col.rule("R-C12-refuse", "forward Euler refuses what its (nbranches, -1) layout cannot represent", 3)
+    c01_solver._refuse(repo, col, "R-C12-refuse")
     from . import c01
     col.rule("R-C12-layout", "every compartment's row is the one its neighbours' couplings point to (padded layout)", 8)
     c01._layout(repo, col, "R-C12-layout")
@@ -199,6 +202,13 @@ def _shifted_parents(repo, fi, value):
         return "VIOLATED", f"cell c is shifted by entry c of `{O.args[0].short(60)}`: that is not the number of branches before cell c"
     if O.op == "sub" and is_branch_cumsum(O.args[0]):
         return "VIOLATED", f"cell c is shifted by `{O.short(60)}`: not entry c of the leading-zero cumulative branch count"
+    # a multiple of the cell number: c * (branches of ONE cell)
+    prod = T.find(O, lambda x: x.op == "binop" and x.name == "*" and
+                  any(T.find(a_, lambda y: (y.op in ("mcall", "call") and y.name in ("arange", "range")) or y.op == "pos") is not None for a_ in x.args))
+    if prod is not None and T.find(O, lambda x: x.op in ("mcall", "call") and x.name in ("cumsum", "cumsum_leading_zero")) is None and \
+            T.find(O, lambda x: x.op == "attr" and x.name == "_cumsum_nbranches") is None:
+        return "VIOLATED", (f"cell c is shifted by `{prod.short(70)}`, c times the branch count of ONE cell: the number of branches before cell c is the SUM of "
+                            f"the branch counts of the cells before it -- wrong from the third cell on as soon as the cells differ")
     return "UNDECIDED", f"offset is {O.short(80)}"
 
 
